@@ -223,6 +223,11 @@ def check(run, cases=None):
             run.violation(key, '%s | case %r' % (msgj, c), dict(case=c, expected=obs))
         if run.replayed % 997 == 1:
             run.sample(dict(case=c, exact_error=obs['e'], exact_jacobian_row0=obs['J'][0], code_jacobian_row0=[np.asarray(jacs[0])[0].tolist(), np.asarray(jacs[1])[0].tolist()]))
+    if monitors:
+        # histories: an analytic Jacobian is the derivative at the CURRENT poses / measurement also after optimizer runs and the user's edits
+        from .. import scenario
+        scenario.histories(run, ['se2', 'se3', 'r2', 'r3', 'mixed', 'se3reg', 'se3neg'], 60 if run.tier == 'thorough' else 8, 14,
+                           lambda cl, ev: cl == 'query-fresh' and ev.get('q') == 'edge_jacobians' and ev['edges'] and ev['edges'][(ev['target'] - 1) % len(ev['edges'])]['cls'] != 'custom')
     run.exhaustive = False
     run.notes['tolerance'] = 'abs dev <= %g * 8 * (largest translation magnitude of the case)' % TOL
     run.assumptions = ['inputs restricted to the rational lattice (DESIGN.md L1)', 'numpy float64 arithmetic',
